@@ -112,6 +112,23 @@ def validate_loader(wd, fname, text, pos_paths):
                 if m:
                     obs["positions"].append({"path": m.group(1), "l": int(m.group(2)), "c": int(m.group(3)),
                                              "from_path": b["check"]["Resolved"]["from"]["path"]})
+    if pos_paths:
+        # the same run reported as SARIF: the region of every result of rule `pos`, with the path its message names
+        rc2, so2, _ = cli.run(["validate", "-r", rpath, "-d", dpath, "--structured", "-o", "sarif", "-S", "none"])
+        obs["sarif"] = []
+        try:
+            for run in json.loads(so2)["runs"]:
+                for r in run["results"]:
+                    if r["ruleId"] != "POS":
+                        continue
+                    named = PATH_RE.findall(r["message"]["text"])
+                    reg = r["locations"][0]["physicalLocation"]["region"]
+                    # the region is the (1-based, at least 1) position of one of the values the message names
+                    rn = any((max(1, int(l_)), max(1, int(c_))) == (reg["startLine"], reg["startColumn"]) for _, l_, c_ in named)
+                    m = named[0] if named else ("?", 0, 0)
+                    obs["sarif"].append({"path": m[0], "l": int(m[1]), "c": int(m[2]), "rn": rn})
+        except (ValueError, KeyError, IndexError, TypeError):
+            obs["sarif"] = [{"path": "?", "l": 0, "c": 0, "rn": False}]
     return obs
 
 
